@@ -302,14 +302,14 @@ func TestC12OS2(t *testing.T) {
 		hg := rapid.OneOf(rapid.Int16Range(0, math.MaxInt16), rapid.SampledFrom([]int16{0, 1, math.MaxInt16}), rapid.Int16Range(0, 2000))
 		o.XHeight = funit.Int16(e.i16(hg.Draw(t, "xHeight")))
 		o.CapHeight = funit.Int16(e.i16(hg.Draw(t, "capHeight")))
-		if rapid.IntRange(0, 19).Draw(t, "negHeights") == 0 {
+		if rapid.IntRange(0, 19).Draw(t, "negHeights") == 13 {
 			o.XHeight = funit.Int16(rapid.Int16Range(math.MinInt16, -1).Draw(t, "negX"))
 			o.CapHeight = funit.Int16(rapid.Int16Range(math.MinInt16, -1).Draw(t, "negCap"))
 			negHeight = true
 		}
 		copy(o.Panose[:], rapid.SliceOfN(rapid.Byte(), 10, 10).Draw(t, "panose"))
 		// achVendID is a 4-byte tag; "" stands for "no vendor" = four spaces
-		if rapid.IntRange(0, 5).Draw(t, "noVendor") == 0 {
+		if rapid.IntRange(0, 5).Draw(t, "noVendor") == 4 {
 			o.Vendor = ""
 		} else {
 			o.Vendor = string(rapid.SliceOfN(rapid.OneOf(rapid.ByteRange(0x20, 0x7E), rapid.Byte()), 4, 4).Draw(t, "vendor"))
